@@ -703,6 +703,27 @@ def job_c12_types(args):
                 {"k": "call", "name": "other", "ins": ["x"], "outs": []}]},
                 {"name": "other", "ins": [["v", elem + l2]], "outs": [], "body": [{"k": "svc", "name": "Use", "ins": ["v"], "outs": []}]}]}
     text = vgen.print_program(copy.deepcopy(prog), None)
+    if rng.random() < 0.35:
+        # a NAME as array length: the grammar lets it through, the model cannot carry it (length -1 would mean "no length
+        # given"): such a text is not accepted
+        p2 = copy.deepcopy(prog)
+        nm = rng.choice(["[n]", "[count]", "[len]"])
+        where = rng.choice(["attr", "in", "out"])
+        if where == "attr":
+            p2["structs"][1]["attrs"][0][1] = elem + nm
+        elif where == "in":
+            p2["tasks"][1]["ins"][0][1] = elem + nm
+        else:
+            p2["tasks"][0]["body"][0]["outs"][0][1] = elem + nm
+        text2 = vgen.print_program(p2, None)
+        buf2 = io.StringIO()
+        try:
+            with contextlib.redirect_stdout(buf2):
+                valid2, process2 = parse_string(text2)
+            if valid2:
+                return {"seed": seed, "text": text2, "problem": "a name as array length (%s, %s) is accepted: the model cannot carry it" % (nm, where)}
+        except Exception as ex:  # noqa: BLE001
+            return {"seed": seed, "text": text2, "problem": "raised %s" % type(ex).__name__}
     buf = io.StringIO()
     try:
         with contextlib.redirect_stdout(buf):
